@@ -159,6 +159,11 @@ theorem remove_by_malformed_txid (s : State) (txid : Bytes) (i : Nat) (h : txid.
 
 /-! ## fees -/
 
+open BtcVerif.Gen.Guards in
+/-- the "not found" test of `NewNaivePrevOutValueFunc` is emptiness of the returned string (the model: `txHex.isEmpty`) -/
+theorem naive_prevout_not_found_pinned (txHex : String) :
+    feecalc_NewNaivePrevOutValueFunc_lit0_0 (txHex := txHex) = decide (txHex = "") := rfl
+
 open BtcVerif.Model.Fee BtcVerif.Gen.Guards in
 /-- `NewNaivePrevOutValueFunc`: for a transaction that decodes, the answer is the value of the output the
 outpoint names when the index is in range and an error otherwise — the index test of the source (the
